@@ -35,7 +35,7 @@ type scenario struct {
 	Targets    []string          `json:"targets"`     // relative paths the oracle watches
 	ExpectFail bool              `json:"expect_fail"` // the fault-free run has to report an error (rule 5)
 	RelCwd     bool              `json:"relative_paths"`
-	Symlinks   map[string]string `json:"symlinks"`   // relative link path -> relative target, created after Files
+	Symlinks   map[string]string `json:"symlinks"`  // relative link path -> relative target, created after Files
 	NoFaults   bool              `json:"no_faults"` // corpus scenarios: fault-free run only (the formatter is the subject, not the file operations)
 }
 
